@@ -238,7 +238,9 @@ fn observe(im: &Impl) -> BTreeMap<usize, (u8, i32)> {
 
 pub struct C09;
 
-fn explore(backend: &'static str, max_retry: i32, depth: usize, keep: bool, out: &mut ItemOut) {
+/// `shard` of `of`: every shard walks the whole reference graph (cheap) and executes its share of the
+/// edges on the real engine (expensive)
+fn explore(backend: &'static str, max_retry: i32, depth: usize, keep: bool, shard: u64, of: u64, out: &mut ItemOut) {
     let scen = format!("ack/{backend}{}/max{max_retry}/depth{depth}", if keep { "+keep" } else { "" });
     let mut seen: BTreeSet<Ref> = BTreeSet::new();
     let mut queue: VecDeque<(Ref, Vec<Op>)> = VecDeque::new();
@@ -263,6 +265,15 @@ fn explore(backend: &'static str, max_retry: i32, depth: usize, keep: bool, out:
             continue;
         }
         for op in ops_of(&s) {
+            let (t, redeliver, first) = step_ref(&s, &op, max_retry);
+            let mut full = path.clone();
+            full.push(op.clone());
+            if crate::explore::fnv(&format!("{full:?}")) % of != shard {
+                if seen.insert(t.clone()) {
+                    queue.push_back((t, full));
+                }
+                continue;
+            }
             // execute path + op on a fresh engine
             let mut im = new_impl(backend, max_retry, keep);
             // initial deliveries: stored before the handler ran?
@@ -283,12 +294,9 @@ fn explore(backend: &'static str, max_retry: i32, depth: usize, keep: bool, out:
             let before = im.deliveries.lock().unwrap().len();
             apply(&mut im, &op);
             edges += 1;
-            let (t, redeliver, first) = step_ref(&s, &op, max_retry);
             // conformance: rows
             let obs = observe(&im);
             let exp: BTreeMap<usize, (u8, i32)> = t.rows.iter().map(|(k, r)| (*k, (r.status, r.retry))).collect();
-            let mut full = path.clone();
-            full.push(op.clone());
             if obs != exp {
                 let class = classify(&s, &op, &obs, &exp);
                 viols.entry(class).or_insert((
@@ -349,10 +357,12 @@ fn explore(backend: &'static str, max_retry: i32, depth: usize, keep: bool, out:
             }
         }
     }
-    out.count("states", seen.len() as i64);
+    if shard == 0 {
+        out.count("states", seen.len() as i64);
+        out.count("distinct_nontrivial", seen.len() as i64);
+    }
     out.count("edges", edges);
     out.count("evaluations", edges);
-    out.count("distinct_nontrivial", seen.len() as i64);
     out.executions += edges as u64;
     out.transitions += edges as u64;
     for s in &seen {
@@ -429,7 +439,11 @@ impl Check for C09 {
                     if keep && backend == "sqlite" && tier == Tier::Quick {
                         continue;
                     }
-                    v.push(json!({"id": format!("ack/{backend}{}/max{max}/depth{depth}", if keep { "+keep" } else { "" }), "backend": backend, "max": max, "depth": depth, "keep": keep}));
+                    let of = tier.pick(2u64, 12);
+                    for shard in 0..of {
+                        let scn = format!("ack/{backend}{}/max{max}/depth{depth}", if keep { "+keep" } else { "" });
+                        v.push(json!({"id": format!("{scn}#{shard}"), "scenario": scn, "backend": backend, "max": max, "depth": depth, "keep": keep, "shard": shard, "of": of}));
+                    }
                 }
             }
         }
@@ -437,6 +451,14 @@ impl Check for C09 {
     }
     fn run_item(&self, _tier: Tier, item: &Value, out: &mut ItemOut) {
         let backend: &'static str = if item["backend"] == "sqlite" { "sqlite" } else { "memory" };
-        explore(backend, item["max"].as_i64().unwrap() as i32, item["depth"].as_u64().unwrap() as usize, item["keep"].as_bool().unwrap_or(true), out);
+        explore(
+            backend,
+            item["max"].as_i64().unwrap() as i32,
+            item["depth"].as_u64().unwrap() as usize,
+            item["keep"].as_bool().unwrap_or(true),
+            item["shard"].as_u64().unwrap_or(0),
+            item["of"].as_u64().unwrap_or(1).max(1),
+            out,
+        );
     }
 }
